@@ -304,9 +304,40 @@ func cmdLocks(args []string) {
 				d := ecs.EntityDump{Entities: []ecs.Entity{{}}, Alive: []uint32{}}
 				r = guard(func(r *result) { w.LoadEntities(&d) })
 			case "ecs.ComponentID(new type)":
+				// relation types and plain types alternate, so that a registration rejected under lock is followed
+				// by a successful one of the other kind that receives the same ID
 				x.newType++
-				tp := reflect.StructOf([]reflect.StructField{{Name: fmt.Sprintf("L%d", x.newType), Type: reflect.TypeOf(int32(0))}})
-				r = guard(func(r *result) { ecs.TypeID(w, tp) })
+				wantRel := x.newType%2 == 1
+				fields := []reflect.StructField{{Name: fmt.Sprintf("L%d", x.newType), Type: reflect.TypeOf(int32(0))}}
+				if wantRel {
+					fields = append([]reflect.StructField{{Name: "Relation", Type: relationType, Anonymous: true}}, fields...)
+				}
+				tp := reflect.StructOf(fields)
+				regRel, usable := wantRel, true
+				r = guard(func(r *result) {
+					id := ecs.TypeID(w, tp)
+					if info, ok := ecs.ComponentInfo(w, id); ok {
+						regRel = info.IsRelation
+					} else {
+						usable = false
+					}
+					if !wantRel {
+						// a plain component can be combined with a relation component on one entity
+						ru := guard(func(r *result) {
+							e := ecs.NewBuilder(w, id, x.rel).WithRelation(x.rel).New(x.target)
+							if w.Relations().Get(e, x.rel) != x.target || !w.Has(e, id) {
+								usable = false
+							}
+							w.RemoveEntity(e)
+						})
+						usable = usable && !ru.panicked
+					}
+				})
+				after := x.fingerprint()
+				logLine(map[string]interface{}{"op": "struct", "api": e.name,
+					"res": map[string]interface{}{"panic": r.panicked, "msg": r.msg, "cls": clsOf(r)}, "unchanged": before == after,
+					"reg": map[string]interface{}{"wantRel": wantRel, "isRel": regRel, "usable": usable}})
+				continue
 			default:
 				r = guard(func(r *result) { e.f() })
 			}
